@@ -200,72 +200,81 @@ def splitOp (op : String) : String × String :=
 def showArgs (e : Env) (log : List GoVal) : String :=
   ",".intercalate (log.map fun x => showVal e.h x e.v e.fb)
 
-def runOp (e : Env) (op : String) : R (Env × String) := do
-  let (name, arg) := splitOp op
-  let m := e.m
+/-- result type of the harness callbacks: the returned Maybe and the log of arguments they were called with -/
+abbrev FR := MaybeV × List GoVal
+
+/-- op token → observer (`none`: not a single observer — `Assoc` — or malformed) -/
+def parseObserver (e : Env) (name arg : String) : R (Option (Heap × Observer FR)) :=
   match name with
-  | "IsNil" => pure (e, bstr m.isNil)
-  | "IsPresent" => pure (e, bstr m.isPresent)
-  | "IsValid" => pure (e, bstr m.isValid)
-  | "IsPtr" => pure (e, bstr m.isPtr)
-  | "Kind" => pure (e, "K:" ++ goKindName m.kind)
-  | "Type" => pure (e, "T:" ++ (match m.type with | some t => tyName t | none => "nil"))
+  | "IsNil" => pure (some (e.h, .isNil))
+  | "IsPresent" => pure (some (e.h, .isPresent))
+  | "IsValid" => pure (some (e.h, .isValid))
+  | "IsPtr" => pure (some (e.h, .isPtr))
+  | "Kind" => pure (some (e.h, .kind))
+  | "Type" => pure (some (e.h, .type))
   | "IsType" =>
-    if arg == "own" then pure (e, bstr (m.isType (typeOf? e.v)))
-    else if arg == "nil" then pure (e, bstr (m.isType none))
-    else match tyOfName? arg with
-      | some t => pure (e, bstr (m.isType (some t)))
-      | none => pure (e, "bad-op")
+    if arg == "own" then pure (some (e.h, .isType (typeOf? e.v)))
+    else if arg == "nil" then pure (some (e.h, .isType none))
+    else pure ((tyOfName? arg).map fun t => (e.h, .isType (some t)))
   | "IsKind" =>
-    if arg == "own" then pure (e, bstr (m.isKind (valueOf e.v).kind))
-    else match kindOfName? arg with
-      | some k => pure (e, bstr (m.isKind k))
-      | none => pure (e, "bad-op")
-  | "Or" => pure (e, showVal e.h (m.or e.fb) e.v e.fb)
-  | "Let" => pure (e, "n=" ++ toString (m.letRun (· + 1) 0))
-  | "Unwrap" => pure (e, showVal e.h m.unwrap e.v e.fb)
-  | "UnwrapInterface" => pure (e, showVal e.h m.unwrapInterface e.v e.fb)
-  | "ToString" => pure (e, match m.toStr e.h with | some s => "S:" ++ s | none => "S:*")
-  | "ToPtr" => do
-    let (h, p) ← m.toPtr e.h
+    if arg == "own" then pure (some (e.h, .isKind (valueOf e.v).kind))
+    else pure ((kindOfName? arg).map fun k => (e.h, .isKind k))
+  | "Or" => pure (some (e.h, .or e.fb))
+  | "Let" => pure (some (e.h, .letRun))
+  | "Unwrap" => pure (some (e.h, .unwrap))
+  | "UnwrapInterface" => pure (some (e.h, .unwrapInterface))
+  | "ToString" => pure (some (e.h, .toString))
+  | "ToPtr" => pure (some (e.h, .toPtr))
+  | "ToMaybe" => pure (some (e.h, .toMaybe))
+  | "Clone" => pure (some (e.h, .clone))
+  | "CloneTo" => do
+    -- the destination is built afresh for this call (`CloneTo` writes through it)
+    let (h0, dest) ← (if arg == "fb" then decode (e.fbtok.length + 1) e.h e.fbtok else pure (e.h, zeroOf e.T))
+    pure (some (h0, .cloneTo dest))
+  | "Just" => pure (some (e.h, .just (if arg == "v" then e.v else if arg == "fb" then e.fb else .nil)))
+  | "FlatMap" => pure ((flatFn e.T e.fb arg).map fun f => (e.h, .flatMap fun x => (f x).run []))
+  | _ => pure (if convName? name then some (e.h, .conv name) else none)
+
+def showOut (e : Env) (h : Heap) (o : Observer FR) : Out FR → String
+  | .bool b => bstr b
+  | .kind k => "K:" ++ goKindName k
+  | .type t => "T:" ++ (match t with | some t => tyName t | none => "nil")
+  | .val r => showVal h r e.v e.fb
+  | .count n => "n=" ++ toString n
+  | .str s => (match s with | some s => "S:" ++ s | none => "S:*")
+  | .ptr p =>
     match p with
     | .ptr _ (some a) =>
       match h[a]? with
-      | some r => pure ({ e with h := h }, "ptr(" ++ rnd h r ++ ") " ++ ident r e.v e.fb)
-      | none => pure ({ e with h := h }, "ptr(?dangling)")
-    | _ => pure ({ e with h := h }, "nilptr")
-  | "ToMaybe" => pure (e, showMaybe e.h m.toMaybe e.v e.fb)
-  | "Clone" => do
-    let (h, r) ← m.clone e.h
-    pure ({ e with h := h }, showMaybe h r e.v e.fb)
-  | "CloneTo" => do
-    let (h0, dest) ← (if arg == "fb" then decode (e.fbtok.length + 1) e.h e.fbtok else pure (e.h, zeroOf e.T))
-    let (h, r) ← cloneTo h0 e.T m dest
-    pure ({ e with h := h }, showMaybe h r e.v dest ++ " dest=" ++ rnd h dest)
-  | "Just" => do
-    let x := if arg == "v" then e.v else if arg == "fb" then e.fb else .nil
-    let r ← m.flatMap (fun _ => just x)     -- `Just` ignores its receiver
-    pure (e, showMaybe e.h r e.v e.fb)
-  | "FlatMap" =>
-    match flatFn e.T e.fb arg with
-    | none => pure (e, "bad-op")
-    | some f => do
-      let (r, log) ← (m.flatMap f).run []
-      pure (e, "c=" ++ toString log.length ++ " a=[" ++ showArgs e log ++ "] r=" ++ showMaybe e.h r e.v e.fb)
-  | "Assoc" =>
-    match arg.splitOn ":" with
-    | [fn, gn] =>
-      match flatFn e.T e.fb fn, flatFn e.T e.fb gn with
-      | some f, some g => do
-        let (l, la) ← (do let r1 ← m.flatMap f; r1.flatMap g : L MaybeV).run []
-        let (r, ra) ← (m.flatMap (fun x => do let r1 ← f x; r1.flatMap g) : L MaybeV).run []
-        pure (e, "L=" ++ showMaybe e.h l e.v e.fb ++ " [" ++ showArgs e la ++ "] R=" ++ showMaybe e.h r e.v e.fb
-                 ++ " [" ++ showArgs e ra ++ "]")
-      | _, _ => pure (e, "bad-op")
-    | _ => pure (e, "bad-op")
-  | _ =>
-    if convName? name then
-      pure (e, match m.conv name with | .errNil => "errnil" | .other => "other")
+      | some r => "ptr(" ++ rnd h r ++ ") " ++ ident r e.v e.fb
+      | none => "ptr(?dangling)"
+    | _ => "nilptr"
+  | .maybe r =>
+    match o with
+    | .cloneTo dest => showMaybe h r e.v dest ++ " dest=" ++ rnd h dest
+    | _ => showMaybe h r e.v e.fb
+  | .conv r => (match r with | .errNil => "errnil" | .other => "other")
+  | .res (r, log) => "c=" ++ toString log.length ++ " a=[" ++ showArgs e log ++ "] r=" ++ showMaybe h r e.v e.fb
+
+def runOp (e : Env) (op : String) : R (Env × String) := do
+  let (name, arg) := splitOp op
+  let m := e.m
+  match ← parseObserver e name arg with
+  | some (h0, o) =>
+    let (h, out) ← observe h0 m o
+    pure ({ e with h := h }, showOut e h o out)
+  | none =>
+    if name == "Assoc" then
+      match arg.splitOn ":" with
+      | [fn, gn] =>
+        match flatFn e.T e.fb fn, flatFn e.T e.fb gn with
+        | some f, some g => do
+          let (l, la) ← (do let r1 ← m.flatMap f; r1.flatMap g : L MaybeV).run []
+          let (r, ra) ← (m.flatMap (fun x => do let r1 ← f x; r1.flatMap g) : L MaybeV).run []
+          pure (e, "L=" ++ showMaybe e.h l e.v e.fb ++ " [" ++ showArgs e la ++ "] R=" ++ showMaybe e.h r e.v e.fb
+                   ++ " [" ++ showArgs e ra ++ "]")
+        | _, _ => pure (e, "bad-op")
+      | _ => pure (e, "bad-op")
     else pure (e, "bad-op")
 
 def runOps (e : Env) : List String → List String → List String
